@@ -66,6 +66,7 @@ func main() {
 	flag.StringVar(&o.Show, "show", "", "debug: ;-separated spec expressions evaluated at exit and shown in counterexamples")
 	flag.BoolVar(&o.Explain, "explain", false, "debug: report the failing conjuncts of failed obligations")
 	flag.StringVar(&o.State, "state", "", "directory with known_findings.json and baseline/ (default: parent of -out)")
+	flag.BoolVar(&coverReturns, "covers", false, "audit: reachability cover for every return statement")
 	flag.Parse()
 	showExprs = o.Show
 
